@@ -1350,8 +1350,19 @@ asn1c_lang_C_type_SIMPLE_TYPE(arg_t *arg) {
 		OUT("\n");
 		DEBUG("expr constraint checking code for %s", p);
 		if(asn1c_emit_constraint_checking_code(arg) == 1) {
-			OUT("return td->encoding_constraints.general_constraints"
-				"(td, sptr, ctfailcb, app_key);\n");
+			/*
+			 * No applicable constraints: use the checker of the
+			 * underlying type, the one emit_type_DEF() selects for
+			 * a type without constraints. The type descriptor (td)
+			 * refers to this very function.
+			 */
+			asn1p_expr_t *base = expr;
+			if(expr->expr_type == A1TC_REFERENCE)
+				base = asn1f_find_terminal_type_ex(arg->asn,
+					arg->ns, expr);
+			OUT("return %s_constraint"
+				"(td, sptr, ctfailcb, app_key);\n",
+				asn1c_type_name(arg, base, TNF_SAFE));
 		}
 		INDENT(-1);
 		OUT("}\n");
